@@ -133,6 +133,21 @@ def record_spends(run: Run, rnd: random.Random, thorough: bool, evs: list[dict[s
                 continue
             stats["signed"] += 1
             kind = f"{'+'.join(mix)} hash type {ht:#x}"
+            # the same spend as a version 2 psbt whose lock time comes from an input that requires one (a height, or a time): what is extracted carries it
+            if rounds % 3 == 0 or thorough:
+                for field, value in (("required_height_lock_time", 500_000 + rounds), ("required_time_lock_time", 1_700_000_000 + rounds)):
+                    def v2_route() -> Any:
+                        p2 = built.psbt.to_v2()
+                        setattr(p2.inputs[0], field, value)
+                        return kit.sign(p2, mix)
+
+                    tx2 = outcome(v2_route)
+                    if isinstance(tx2, str):
+                        evs.append({"op": "holds", "what": f"sign/finalize/extract of a version 2 psbt with {field} for {mix}: {tx2}", "ok": False})
+                        continue
+                    evs.append({"op": "holds", "what": f"the transaction extracted from a version 2 psbt carries the lock time its input requires ({field}, {kind})", "ok": tx2.lock_time == value})
+                    oks2 = verify_events(tx2, prevs, STANDARD, evs, f"{kind}; v2 psbt with {field}")
+                    evs.append({"op": "holds", "what": f"the engine accepts every input of a version 2 psbt with {field} ({kind})", "ok": all(oks2)})
             for flags in (STANDARD, CONSENSUS, []):
                 oks = verify_events(tx, prevs, flags, evs, kind)
                 stats["inputs"] += len(oks)
@@ -155,10 +170,11 @@ def record_messages(run: Run, rnd: random.Random, thorough: bool, evs: list[dict
 
     stats = {"bms": 0, "bip322": 0}
     keys = [rnd.randrange(1, 2**255) for _ in range(3 if thorough else 2)]
-    for d in keys:
-        wif_c = b58.wif_from_prv_key(d, "mainnet", True)
-        wif_u = b58.wif_from_prv_key(d, "mainnet", False)
-        other = b58.wif_from_prv_key((d % (2**255 - 3)) + 1, "mainnet", True)
+    for kn, d in enumerate(keys):
+        net = ["mainnet", "testnet", "regtest"][kn % 3]          # (the addresses a key has on its own network, whichever that is)
+        wif_c = b58.wif_from_prv_key(d, net, True)
+        wif_u = b58.wif_from_prv_key(d, net, False)
+        other = b58.wif_from_prv_key((d % (2**255 - 3)) + 1, net, True)
         addrs = {"p2pkh": b58.p2pkh(wif_c), "p2pkh-uncompressed": b58.p2pkh(wif_u), "p2wpkh": b32.p2wpkh(wif_c), "p2wpkh-p2sh": b58.p2wpkh_p2sh(wif_c)}
         for msg in (b"", b"hello", rnd.randbytes(40)):
             for name, addr in addrs.items():
